@@ -1892,33 +1892,117 @@ fn gen_type(rng: &mut Rng, depth: u32) -> DataType {
     }
 }
 
-/// Types on which arrow-rs itself fails the round trip (genuine findings of this check, reported
-/// with exact case lines in props/C05.json `findings`).  They are left out of the default stream so
-/// that the rest of the space is searched; `C05_KNOWN=1` puts them back.
-///  * FixedSizeBinary(0): `ArrowWriter::write` panics (`chunks(0)`, arrow_writer/mod.rs)
-///  * Decimal32(1, s): schema conversion picks INT64 for precision 1, the writer then refuses
-///  * Dictionary values Utf8View / BinaryView: writer panics (byte_array.rs unreachable!)
-///  * Dictionary values Float16 / Interval / Decimal with precision > 18: file is written, reader errors
-///  * Dictionary values Boolean: reader panics (primitive_array.rs unreachable!)
-///  * Dictionary values FixedSizeBinary(n): reader panics when a page is not dictionary encoded
-fn known_defect(dt: &DataType) -> bool {
+/// Known findings of this check (arrow-rs fails the round trip).  The shapes stay in the default
+/// stream; a case whose line shows the triggering shape is tagged `kf:<name>` (a pure function of
+/// the case line, so corpus / replay lines get the same tags) and `known_findings.txt` maps the tag
+/// to the finding.  Any failure on an untagged case is a new violation.
+///  * kf:dict-view-values-write-panic      Dictionary values Utf8View / BinaryView
+///  * kf:fsb0-write-panic                  FixedSizeBinary(0) anywhere
+///  * kf:dict-unsupported-values-read-err  Dictionary values Float16 / Interval / Decimal(p > 18)
+///  * kf:dict-bool-read-panic              Dictionary values Boolean
+///  * kf:dict-fsb-plain-page-read-panic    Dictionary values FixedSizeBinary(n) and a page that is
+///                                         not dictionary encoded can occur (dictionary not enabled
+///                                         for every column, small dictionary page limit, or more
+///                                         than one row group)
+///  * kf:cdc-listview-write-panic          CDC on, a ListView column, garbage mode (views out of order)
+///  * kf:cdc-allnull-bool-rle-write-panic  CDC on, a Boolean leaf written with RLE (v2 default or enc=RLE)
+#[derive(Default)]
+struct Shapes {
+    dict_view: bool,
+    fsb0: bool,
+    dict_unsupported: bool,
+    dict_bool: bool,
+    dict_fsb: bool,
+    listview: bool,
+    boolean: bool,
+}
+fn shapes(dt: &DataType, sh: &mut Shapes) {
     match dt {
-        DataType::FixedSizeBinary(0) => true,
-        DataType::Decimal32(1, _) => true,
-        DataType::Dictionary(_, v) => match v.as_ref() {
-            DataType::Utf8View | DataType::BinaryView | DataType::Float16 | DataType::Interval(_) | DataType::Boolean | DataType::FixedSizeBinary(_) => true,
-            DataType::Decimal32(p, _) | DataType::Decimal64(p, _) | DataType::Decimal128(p, _) | DataType::Decimal256(p, _) => *p > 18 || known_defect(v),
-            v => known_defect(v),
-        },
-        _ => false,
+        DataType::FixedSizeBinary(0) => sh.fsb0 = true,
+        DataType::Boolean => sh.boolean = true,
+        DataType::Dictionary(_, v) => {
+            match v.as_ref() {
+                DataType::Utf8View | DataType::BinaryView => sh.dict_view = true,
+                DataType::Float16 | DataType::Interval(_) => sh.dict_unsupported = true,
+                DataType::Decimal32(p, _) | DataType::Decimal64(p, _) | DataType::Decimal128(p, _) | DataType::Decimal256(p, _) if *p > 18 => sh.dict_unsupported = true,
+                DataType::Boolean => sh.dict_bool = true,
+                DataType::FixedSizeBinary(_) => sh.dict_fsb = true,
+                _ => {}
+            }
+            shapes(v, sh)
+        }
+        DataType::Struct(fs) => fs.iter().for_each(|f| shapes(f.data_type(), sh)),
+        DataType::ListView(f) | DataType::LargeListView(f) => {
+            sh.listview = true;
+            shapes(f.data_type(), sh)
+        }
+        DataType::List(f) | DataType::LargeList(f) | DataType::FixedSizeList(f, _) | DataType::Map(f, _) => shapes(f.data_type(), sh),
+        DataType::RunEndEncoded(_, v) => shapes(v.data_type(), sh),
+        _ => {}
     }
+}
+
+/// `kf:` tags of an e2e case line (`toks` = the line split on spaces)
+pub fn kf_tags(toks: &[&str]) -> Vec<String> {
+    let mut out = vec![];
+    if toks.len() != 7 {
+        return out;
+    }
+    let fields = match p_schema(toks[5]) {
+        Ok(f) => f,
+        Err(_) => return out,
+    };
+    let mut sh = Shapes::default();
+    for f in &fields {
+        shapes(f.data_type(), &mut sh);
+    }
+    let mut kv: HashMap<&str, &str> = HashMap::new();
+    for p in toks[2].split(',') {
+        if let Some((k, v)) = p.split_once('=') {
+            kv.insert(k, v);
+        }
+    }
+    let num = |k: &str, d: usize| kv.get(k).and_then(|v| v.parse::<usize>().ok()).unwrap_or(d);
+    let plan = toks[3];
+    let (head, items) = plan.split_once(':').unwrap_or((plan, ""));
+    let garbage = !head.starts_with("g0s");
+    let sizes: Vec<usize> = items.split(',').filter_map(|x| x.parse::<usize>().ok()).collect();
+    let n: usize = sizes.iter().sum();
+    let has_flush = items.split(',').any(|x| x == "f");
+    let cdc = kv.get("cdc").map(|v| *v != "0").unwrap_or(false);
+    let v2 = kv.get("v").map(|v| *v == "2").unwrap_or(false);
+    let enc = kv.get("enc").copied().unwrap_or("-");
+    if sh.dict_view {
+        out.push("kf:dict-view-values-write-panic".into());
+    }
+    if sh.fsb0 {
+        out.push("kf:fsb0-write-panic".into());
+    }
+    if sh.dict_unsupported {
+        out.push("kf:dict-unsupported-values-read-err".into());
+    }
+    if sh.dict_bool {
+        out.push("kf:dict-bool-read-panic".into());
+    }
+    if sh.dict_fsb {
+        let dict_on = kv.get("dict").map(|v| *v == "1").unwrap_or(true);
+        let rg = num("rg", 0);
+        let single_rg = (rg == 0 || n <= rg) && num("rgb", 0) == 0 && !has_flush;
+        if !(dict_on && num("dps", 1 << 20) >= 1 << 20 && single_rg) {
+            out.push("kf:dict-fsb-plain-page-read-panic".into());
+        }
+    }
+    if cdc && sh.listview && garbage {
+        out.push("kf:cdc-listview-write-panic".into());
+    }
+    if cdc && sh.boolean && (v2 || enc.contains("RLE")) {
+        out.push("kf:cdc-allnull-bool-rle-write-panic".into());
+    }
+    out
 }
 
 /// types the generator must not produce (writer rejects them by design / documented gaps)
 fn type_ok(dt: &DataType, top: bool) -> bool {
-    if known_defect(dt) && std::env::var_os("C05_KNOWN").is_none() {
-        return false;
-    }
     match dt {
         DataType::Struct(fs) => !fs.is_empty() && fs.iter().all(|f| type_ok(f.data_type(), false)),
         DataType::List(f) | DataType::LargeList(f) | DataType::ListView(f) | DataType::LargeListView(f) | DataType::FixedSizeList(f, _) => type_ok(f.data_type(), false),
@@ -2286,6 +2370,14 @@ pub fn gen_e2e(rng: &mut Rng, thorough: bool) -> (String, String) {
     let v2 = rng.bool();
     let encs: Vec<&str> = phs.iter().map(|p| gen_enc(*p, rng)).collect();
     let enc_s = if encs.iter().all(|e| *e == encs[0]) && rng.bool() { encs[0].to_string() } else if phs.len() == 1 { encs[0].to_string() } else { encs.join("/") };
+    // an Arrow dictionary over a FIXED_LEN_BYTE_ARRAY leaf goes through the byte-array encoder, which
+    // refuses BYTE_STREAM_SPLIT by panicking (`unwrap` on "unsupported encoding"): by-design
+    // unsupported configuration, reported separately, not generated
+    let enc_s = {
+        let mut sh = Shapes::default();
+        fields.iter().for_each(|f| shapes(f.data_type(), &mut sh));
+        if sh.dict_fsb || sh.dict_unsupported { enc_s.replace("BSS", "PLAIN") } else { enc_s }
+    };
     let dict_s: String = match rng.below(10) {
         0..=3 => "1".into(),
         4..=6 => "0".into(),
@@ -2342,11 +2434,6 @@ pub fn gen_e2e(rng: &mut Rng, thorough: bool) -> (String, String) {
     } else {
         "0".to_string()
     };
-    // content-defined chunking has its own findings (see `known_defect`): `slice_for_chunk`
-    // panics on list views stored out of order, and a v2 (RLE) boolean page without any
-    // non-null value panics in `RleValueEncoder::flush_buffer`
-    let known = std::env::var_os("C05_KNOWN").is_some();
-    let cdc = if !known && (v2 || enc_s.contains("RLE")) && schema_s.contains("bool") { "0".to_string() } else { cdc };
     let mut props = format!("v={},enc={},dict={},dps={},pg={},pr={},wb={},rg={},comp={},stats={},bloom={},cdc={},par={}", if v2 { 2 } else { 1 }, enc_s, dict_s, dps, pg, pr, wb, rg, comp, stats, bloom, cdc, par);
     if rgb > 0 {
         write!(props, ",rgb={}", rgb).unwrap();
@@ -2356,7 +2443,6 @@ pub fn gen_e2e(rng: &mut Rng, thorough: bool) -> (String, String) {
     }
     // plan
     let g = if rng.bool() { 0 } else { 1 + rng.below(999) };
-    let g = if !known && cdc != "0" && schema_s.contains("listview") { 0 } else { g };
     let s = if rng.chance(3, 5) { 0 } else { 1 + rng.usize(9) };
     let mut items: Vec<String> = vec![];
     let mut sizes: Vec<usize> = vec![];
@@ -2494,5 +2580,6 @@ pub fn gen_e2e(rng: &mut Rng, thorough: bool) -> (String, String) {
     if n >= 1 && (nested || nulls || nwrites > 1 || multi_rg) {
         tags.push("nt".into());
     }
+    tags.extend(kf_tags(&line.split(' ').collect::<Vec<_>>()));
     (line, tags.join(" "))
 }
